@@ -138,12 +138,20 @@ def cfgTolerance (cfg : Json) : Except CfgErr (Option Nat) :=
     | some b => .ok (some b)
     | none => .error .serde
 
-/-- `get_config_serde_optional::<DistanceUnit>("distance_unit")`: one of the snake-case names -/
+/-- a unit-only enum by `serde`: the variant's snake-case name as a string, or — the externally tagged form —
+a one-entry object `{"<name>": null}` -/
+def serdeUnitName (v : Json) : Option String :=
+  match v with
+  | .str s => some s
+  | .obj [(k, .null)] => some k
+  | _ => none
+
+/-- `get_config_serde_optional::<DistanceUnit>("distance_unit")` -/
 def cfgUnit (cfg : Json) : Except CfgErr (Option DistanceUnit) :=
   match cfg.get? "distance_unit" with
   | none => .ok none
   | some v =>
-    match v.asStr? with
+    match serdeUnitName v with
     | none => .error .serde
     | some s =>
       match DistanceUnit.ofName? s with
@@ -173,13 +181,21 @@ def vertexBuilder (cfg : Json) (fileExists fileParses : Bool) : Except CfgErr (O
         | .error e => .error e
         | .ok u => if !fileParses then .error .plugin else .ok (resolveTolerance t u)
 
-/-- `RoadClassParser` by `serde`: an object with a `mapping` object of `u8`s (other keys are ignored) -/
+/-- `HashMap<String, u8>` by `serde` -/
+def u8MapOk (v : Json) : Bool :=
+  match v with
+  | .obj m => m.all fun p => (u8Of p.2).isSome
+  | _ => false
+
+/-- `RoadClassParser` by `serde`: an object with a `mapping` object of `u8`s (other keys are ignored), or —
+`serde` reads a struct from a sequence of its fields too — a one-element array holding that mapping -/
 def parserOk (v : Json) : Bool :=
   match v with
   | .obj kvs =>
     match Json.lookup kvs "mapping" with
-    | some (.obj m) => m.all fun p => (u8Of p.2).isSome
-    | _ => false
+    | some m => u8MapOk m
+    | none => false
+  | .arr [m] => u8MapOk m
   | _ => false
 
 /-- what the files named by an edge r-tree configuration hold: `none` = cannot be read -/
@@ -191,6 +207,9 @@ structure EdgeFiles where
   geometry : Option Nat
   /-- one of the linestrings has no points -/
   emptyLinestring : Bool
+  /-- one of the linestrings has a coordinate that is not finite as `f32` (`1e39`, `+NaN`, `-inf`) or a centroid
+  that is not finite (finite coordinates so far apart that it overflows: `(3e38 0, -3e38 0)`) -/
+  nonFinite : Bool
   deriving Repr, Inhabited
 
 /-- the fields of the built `EdgeRtreeInputPlugin` that matter to matching -/
@@ -201,7 +220,8 @@ structure EdgePlugin where
   deriving Repr, Inhabited
 
 /-- `EdgeRtreeInputPlugin::new`: the files are read in this order — road classes, restrictions, geometries —
-then the geometries are checked (no empty linestring, as many as there are road classes) -/
+then the geometries are checked (no empty linestring, every coordinate and centroid finite, as many as there are
+road classes) -/
 def edgeNew (files : EdgeFiles) (tol : Option (Nat × DistanceUnit)) (hasRc hasVr : Bool) : Except CfgErr EdgePlugin :=
   if hasRc && files.roadClass.isNone then .error .io
   else if hasVr && !files.restrictionsOk then .error .frontier
@@ -210,6 +230,7 @@ def edgeNew (files : EdgeFiles) (tol : Option (Nat × DistanceUnit)) (hasRc hasV
     | none => .error .io
     | some g =>
       if files.emptyLinestring then .error .userConfig
+      else if files.nonFinite then .error .userConfig
       else if hasRc && files.roadClass != some g then .error .userConfig
       else .ok ⟨tol, hasRc, hasVr⟩
 
